@@ -81,6 +81,7 @@ def chunk(ws, n):
 
 from fractions import Fraction as _F
 GRID = [_F(0), '-0', _F(1), _F(-1), _F(2), _F(3), _F(1, 2), _F(-5, 2), _F(7), _F(29, 4), _F(1, 8), _F(-11)]
+GRID_ORDER = [2, 7, 5, 12, 3, 0, 8, 13, 4, 6, 9, 10, 11, 14, 15, 1]
 GRID_INEXACT = [_F(1, 3), _F(-1, 10), _F(355, 113), _F(10, 7)]
 COMPOSITIONAL_ABOVE = 3
 SPECIALS = [0.0, -0.0, 1.0, -1.0, 0.5, 2.0, 3.0, 1e-3, 1e3, 0.1, 1e10, -1e-10, 7.25, -2.5, 1.0 / 3.0]
@@ -221,7 +222,7 @@ class Ctx:
             cons = asm + [z3.BoolVal(False)]
         else:
             cons = asm + [z3.Or(*diffs)]
-            if len(diffs) > 1:
+            if len(diffs) >= 1:
                 # bounded pre-pass per differing component: only the inputs that component depends on are
                 # restricted to the value grid, which keeps the SAT search tiny
                 S = modes.FSORT[w.in_ty]
@@ -231,7 +232,9 @@ class Ctx:
                     names = sorted(set(tm.free_args(a)) | set(tm.free_args(b)))
                     if not names or len(names) > 6 or not all(nm_.startswith('x') for nm_ in names):
                         continue
-                    restrict = [z3.Or(*[modes.smt_eq(z3.FP(nm_, S), c) for c in g]) for nm_ in names]
+                    kk = max(2, min(len(g), int(round(4000 ** (1.0 / max(1, len(names)))))))
+                    gsel = [g[j] for j in GRID_ORDER[:kk]]
+                    restrict = [z3.Or(*[modes.smt_eq(z3.FP(nm_, S), c) for c in gsel]) for nm_ in names]
                     v, model, secs, _ = core.solve(asm + [dz] + restrict, min(self.timeout, 10000))
                     o.secs += secs
                     if v == 'sat':
